@@ -2,6 +2,12 @@
 DEFERRED = "rules for this property are not armed yet (build order: DESIGN.md Appendix D); not claimed until a self-tested rule exists"
 
 CLAIMS = {
+    "C02": {
+        "level": "other",
+        "text": "Command-byte table extracted from the parser's MIR vs the protocol table (9 pairs, bijective); affine cursor offsets of Execute/SendLongData/Close fields vs the request layouts; per enumerated path through one loop iteration: which shim callbacks are reached and how often (table), none in inner loops; the text handed to the shim is the Ok payload of a checked from_utf8 over the command's whole payload (USE: payload[len(matched prefix)..] then trims only), ids are the variant's stmt; invalid UTF-8 exits with an error before any callback; slice starts agree with the prefix matched on that path.",
+        "note": "Trusted: nom combinator semantics, str::trim*. Does not decide what trim yields for each spelling of USE (string values).",
+        "technique": "MIR table extraction, affine cursor-offset analysis, path-precise def-use on enumerated CFG paths",
+    },
     "C10": {
         "level": "other",
         "text": "Registry life-cycle rules over MIR (who creates/inserts/removes; lookup-or-error dominating on_execute and the long-data append with the same id on every enumerated path through one loop iteration; nothing but an error return after a failed lookup; close = on_close once + remove same id + no write; reply() inserts a fresh Default-based entry). Decides these structural necessary conditions for all interleavings because they hold on every CFG path; does not model HashMap itself.",
